@@ -20,6 +20,12 @@ Size(ins) == CASE ins.op \in {"lda", "ldx", "ldy", "bne"} -> 2
 RECURSIVE AddrOf(_, _, _)
 AddrOf(prog, base, k) == IF k = 1 THEN base ELSE AddrOf(prog, base, k - 1) + Size(prog[k - 1])
 
+(* source lines: `lines[k]` is the source line instruction k was assembled from. A line that is assembled several  *)
+(* times (.loop body, macro invoked twice, file imported twice) owns several instructions: a breakpoint on the line  *)
+(* is a breakpoint on ALL of them (mos/src/debugger/mod.rs:436-511, source_map line_col_to_offsets).                 *)
+PcsOfLines(lines, L) == {k \in 1..Len(lines) : lines[k] \in L}
+FirstPcOfLines(lines, L) == {k \in 1..Len(lines) : lines[k] \in L /\ \A m \in 1..(k - 1) : lines[m] # lines[k]}
+
 B8(v) == v % 256
 Cpu0 == [i |-> 1, a |-> 0, x |-> 0, y |-> 0, z |-> FALSE, stk |-> <<>>, cyc |-> 0]
 
